@@ -373,8 +373,13 @@ impl SubscriptionObserver {
     }
 
     /// Notifies of new messages being available.
+    ///
+    /// Every waiting consumer is woken; the ones that find nothing to pull go back to
+    /// waiting. Waking just one is not enough: the one that gets picked may be unable to
+    /// run (a StreamingPull whose client has stopped reading is still registered here),
+    /// and the wake-up would be lost while other consumers keep waiting.
     pub fn notify_new_messages_available(&self) {
-        self.notify_messages_available.notify_one();
+        self.notify_messages_available.notify_waiters();
     }
 
     /// Records that a deletion of the subscription has started.
